@@ -1,6 +1,5 @@
-(* C14 — the decision tree of xsl:attribute with a namespace attribute, one step, every state:
-   if the step raises no hazard (only K17 is left), the attribute it adds carries a prefix that the
-   result-namespace stack resolves to the requested URI. *)
+(* C14 — basic facts about addResultAttribute and the hazards (used by NsfixWhole.v).  The former
+   one-instruction theorem for xsl:attribute is subsumed by the whole-program theorem. *)
 From Coq Require Import List NArith Bool Lia ZifyBool ZifyNat ZifyN.
 Require Import XV.GenNsfix XV.NsfixDefs XV.NsfixModel.
 Import ListNotations.
@@ -37,7 +36,7 @@ Proof.
 Qed.
 
 Lemma add_result_attr_plain : forall s n v r, decl_prefix n = None ->
-  add_result_attr s n v r = set_pattrs s (add_attribute (pattrs s) (mkAttr n v r)).
+  add_result_attr s n v r = set_pattrs s (add_attr_x (stk s) (pattrs s) (mkAttr n v r)).
 Proof.
   intros s [[[]|] []] v r H; simpl in H; try discriminate; reflexivity.
 Qed.
@@ -50,18 +49,6 @@ Proof.
     [exists [HDeclAttr; HK17] | exists [HDeclAttr] | exists [HK17] | exists []]; reflexivity.
 Qed.
 
-Lemma emit_attr_plain_spec : forall s n v r, decl_prefix n = None ->
-  hz (emit_attr s n v r) = hz s ->
-  In (mkAttr n v r) (pattrs (emit_attr s n v r)) /\ stk (emit_attr s n v r) = stk s.
-Proof.
-  intros s n v r Hn H. unfold emit_attr in *. rewrite Hn in *.
-  rewrite add_result_attr_hz in H. rewrite add_result_attr_plain by assumption.
-  unfold add_hz_if, add_hz in *.
-  destruct (existsb _ (pattrs s)); cbn [hz stk pattrs set_pattrs] in *.
-  - exfalso. eapply cons_neq_self. exact H.
-  - split; [apply add_attribute_in | reflexivity].
-Qed.
-
 Lemma decl_prefix_prefixed : forall q L, q <> AXmlns -> decl_prefix (Some q, L) = None.
 Proof. intros [] L H; try reflexivity. contradiction. Qed.
 
@@ -71,66 +58,3 @@ Proof. intros. apply add_result_attr_hz. Qed.
 Lemma plain_not_xmlns : forall a, plain_atom a = true -> a <> AXmlns.
 Proof. intros a H E. subst. discriminate. Qed.
 
-Lemma keep_case : forall s p L u v, stk s <> [] -> plain_atom p = true ->
-  hz (emit_attr (declare_prefix s p u) (Some p, L) v (u, L)) = hz s ->
-  exists q, In (mkAttr (Some q, L) v (u, L)) (pattrs (emit_attr (declare_prefix s p u) (Some p, L) v (u, L)))
-            /\ ns_for_prefix (stk (emit_attr (declare_prefix s p u) (Some p, L) v (u, L))) (Some q) = Some u.
-Proof.
-  intros s p L u v Hk Hp H.
-  rewrite <- (declare_prefix_hz s p u) in H.
-  apply emit_attr_plain_spec in H; [|apply decl_prefix_prefixed, plain_not_xmlns; assumption].
-  destruct H as [Hin Hst]. exists p. split; [exact Hin|]. rewrite Hst.
-  apply declare_prefix_resolves; assumption.
-Qed.
-
-Lemma gen_case : forall s L u v, stk s <> [] ->
-  hz (let (g, s1) := gen_unique s in emit_attr (declare_prefix s1 g u) (Some g, L) v (u, L)) = hz s ->
-  exists q, In (mkAttr (Some q, L) v (u, L))
-               (pattrs (let (g, s1) := gen_unique s in emit_attr (declare_prefix s1 g u) (Some g, L) v (u, L)))
-            /\ ns_for_prefix (stk (let (g, s1) := gen_unique s in emit_attr (declare_prefix s1 g u) (Some g, L) v (u, L)))
-                 (Some q) = Some u.
-Proof.
-  intros s L u v Hk. destruct (gen_unique s) as [g s1] eqn:G. apply gen_unique_spec in G.
-  destruct G as (_ & Hs1 & _ & _ & _ & Hh1 & n & -> & _ & _). intro H.
-  rewrite <- Hh1 in H. apply keep_case in H; auto. rewrite Hs1. assumption.
-Qed.
-
-Lemma attr_new_decl_step : forall s P L u v,
-  stk s <> [] ->
-  match P with None => True | Some a => plain_atom a = true end ->
-  hz (attr_new_decl s P L u v (u, L)) = hz s ->
-  exists q, In (mkAttr (Some q, L) v (u, L)) (pattrs (attr_new_decl s P L u v (u, L)))
-            /\ ns_for_prefix (stk (attr_new_decl s P L u v (u, L))) (Some q) = Some u.
-Proof.
-  intros s P L u v Hk HP. unfold attr_new_decl.
-  destruct P as [a|]; [|apply gen_case; assumption].
-  destruct a; simpl in HP; try discriminate; cbn [atom_eqb andb];
-    (destruct (ns_for_prefix (stk s) (Some _)) as [w|];
-     [destruct (negb (N.eqb w u) && is_pending_prefix s _)|];
-     cbv zeta; first [apply gen_case; assumption | apply keep_case; [assumption | reflexivity]]).
-Qed.
-
-(* the attribute clause of the property for one xsl:attribute with a namespace attribute: in any
-   state with a pending element, unless the instruction raises the duplicate-expanded-name hazard
-   (K17), the attribute it adds has a prefix that the stack resolves to the requested URI *)
-Lemma attr_namespace_step : forall s P L u sns v,
-  pend s <> None -> stk s <> [] -> u <> 0 -> u <> uXMLNS ->
-  match P with None => True | Some a => plain_atom a = true end ->
-  hz (exec_attr s (P, L) (Some u) sns v) = hz s ->
-  exists q, In (mkAttr (Some q, L) v (u, L)) (pattrs (exec_attr s (P, L) (Some u) sns v))
-            /\ ns_for_prefix (stk (exec_attr s (P, L) (Some u) sns v)) (Some q) = Some u.
-Proof.
-  intros s P L u sns v Hp Hk Hu Hx HP.
-  unfold exec_attr. cbv beta zeta iota delta [fst snd].
-  assert (Hreq : req_attr (P, L) (Some u) sns = (u, L)) by reflexivity. rewrite Hreq.
-  destruct (pend s) as [pe|] eqn:Epend; [|contradiction].
-  assert (Hu0 : N.eqb u 0 = false) by (apply N.eqb_neq; assumption). rewrite Hu0.
-  destruct (prefix_for_ns (stk s) u) as [[q|]|] eqn:Efound; try (apply attr_new_decl_step; assumption).
-  destruct (match P with None => true | Some p => atom_eqb p q end) eqn:Euse;
-    [|apply attr_new_decl_step; assumption].
-  apply prefix_for_ns_sound in Efound. intro H.
-  assert (Hq : q <> AXmlns).
-  { intro E. subst q. simpl in Efound. inversion Efound. congruence. }
-  apply emit_attr_plain_spec in H; [|apply decl_prefix_prefixed; assumption].
-  destruct H as [Hin Hst]. exists q. split; [exact Hin|]. rewrite Hst. exact Efound.
-Qed.
